@@ -132,13 +132,76 @@ def run(check):
             if 'string' in why or 'ostream' in why:
                 continue
             check.notes.append('not translated: %s: %s' % (nm, why))
+    # ---- constitutive models: same obligations on their stored moduli / viscosities (declaration order)
+    from .models_common import Models
+    from ..tu import MODELS
+    for T in types:
+        M = Models(check, types=(T,))
+        M.free_functions = lambda names=None, M=M: Quant.free_functions(M, names)
+        M.hash_ops = lambda M=M: Quant.hash_ops(M)
+        low = M.low
+        tag = T.replace(' ', '_')
+        byrec = {}
+        for f in M.free_functions(names=set(OPS)):
+            if len(f.params) == 2 and f.params[0][1][0] == 'ptr' and f.params[0][1][1][0] == 'rec' and f.params[1][1] == f.params[0][1]:
+                byrec.setdefault(f.params[0][1][1][1], {})[f.node['name']] = f
+        hashes = M.hash_ops()
+        for cls in MODELS:
+            canon = M.canon(cls, T)
+            if canon not in low.records:
+                check.error('C14: model %s not found' % canon)
+                continue
+            nclasses += 1
+            ops = byrec.get(canon, {})
+            missing = [o for o in OPS if o not in ops]
+            if missing:
+                check.error('C14: %s lacks instantiated %s' % (canon, missing))
+            t = ('rec', canon)
+            fields = [fn for fn, ft in low.record(canon).fields]
+            for oname, f in sorted(ops.items()):
+                pl = param_leaves(low, f)
+                a, b = pl[f.params[0][0]], pl[f.params[1][0]]
+                lts = replay.leaf_types(low, t)
+                req = ['!%s(%s)' % (isnan_fn(lt[1]), x) for x, lt in zip(a + b, lts + lts) if lt[0] == 'f']
+                op = OPS[oname]
+                opn = {'==': 'eq', '!=': 'ne', '<': 'lt', '>': 'gt', '<=': 'le', '>=': 'ge'}[op]
+                j = IeeeJob(check, 'C14.cmp.%s.%s.%s' % (cls, opn, tag), low, f, ensures=['__CPROVER_return_value == %s' % spec(op, a, b)],
+                            requires=req, backend='sat', timeout=120, predicate=None)
+                j.ob.loc = M.loc(f)
+                j.model = (canon, cls, T, fields, op)
+                jobs.append(j)
+                check.under_contract(f)
+            if canon in hashes:
+                node, ht = hashes[canon]
+                try:
+                    hf = low.lower_func(node)
+                except Unsupported as e:
+                    check.error('hash of %s: %s' % (canon, e))
+                    continue
+                E = cemit.CEmitter(low)
+                ct = E.ctype(t)
+                la, lb = cleaves(low, 'a', t), cleaves(low, 'b', t)
+                lts = replay.leaf_types(low, t)
+                nn = ' && '.join('!%s(%s) && !%s(%s)' % (isnan_fn(lt[1]), x, isnan_fn(lt[1]), y) for x, y, lt in zip(la, lb, lts) if lt[0] == 'f') or '1'
+                harness = 'void harness(void) {\n  %s a; %s b;\n  __CPROVER_assume(%s);\n  __CPROVER_assume(%s);\n  __CPROVER_assert(%s(&a) == %s(&b), "equal objects have equal hashes");\n}\n' % (
+                    ct, ct, nn, alleq(la, lb), hf.cname, hf.cname)
+                hj = HarnessJob(check, 'C14.hash.%s.%s' % (cls, tag), low, [hf], harness, 1, function='std::hash<%s>::operator()' % canon,
+                                loc=M.loc(hf), backend=['cvc5', 'sat'], timeout=120)
+                hj.t, hj.hf = t, hf
+                hj.model = (canon, cls, T, fields, 'hash')
+                jobs.append(hj)
+                check.under_contract(hf)
+            else:
+                check.error('C14: no std::hash specialisation found for %s' % canon)
     check.extra['classes_seen'] = nclasses
     check.log('%d obligations' % len(jobs))
     obs = pmap(lambda j: j.run(), jobs)
     for j, ob in zip(jobs, obs):
         check.add(ob)
         if ob.status == 'failed':
-            if isinstance(j, IeeeJob):
+            if getattr(j, 'model', None):
+                check.violations.append((ob,) + adjudicate_model(check, j, ob))
+            elif isinstance(j, IeeeJob):
                 path, tail, harmless = j.adjudicate()
                 check.violations.append((ob, path, tail))
             else:
@@ -179,6 +242,51 @@ def adjudicate_hash(check, j, ob):
                     if len(ws) == 3 and ws[0] == '1' and ws[1] != ws[2]:
                         confirmed = True
                         rec['mismatch'] = ['a == b but hash(a) = %s, hash(b) = %s' % (ws[1], ws[2])]
+    except Exception as e:
+        rec['replay_error'] = '%s: %s' % (type(e).__name__, e)
+    rec['confirmed'] = confirmed
+    return write_replay(check, ob, rec), ('' if confirmed else 'no-failing-input-found')
+
+
+def adjudicate_model(check, j, ob):
+    """Native replay for the (polymorphic) model classes: objects are default-constructed and their stored members set
+    through -fno-access-control; ties in every prefix of the members are tried."""
+    canon, cls, T, fields, op = j.model
+    low = j.low
+    rec = {'property': 'C14', 'obligation': ob.name, 'function': ob.function, 'source': ob.loc, 'verifier_output': ob.detail}
+    confirmed = False
+    try:
+        ftypes = [low.record(ft[1]).template for fn, ft in low.record(canon).fields]
+        n = len(fields)
+        import itertools
+        vals = [-1.5, 0.0, 2.0]
+        cases = list(itertools.product(vals, repeat=2 * n))
+        body = ''
+        for fn, ftn in zip(fields, ftypes):
+            body += '    a.%s = PhQ::%s<%s>(static_cast<%s>(va[k++ %% %d]));\n' % (fn, ftn, T, T, n)
+        setter = ''
+        cpp = ('#include <PhQ/ConstitutiveModel/%s.hpp>\n#include <cstdio>\n#include <functional>\nusing M = PhQ::ConstitutiveModel::%s<%s>;\n'
+               'static void set(M& m, const double* v) {\n%s}\n'
+               'int main() {\n  const double vals[] = {-1.5, 0.0, 2.0}; int bad = 0;\n  const int n = %d; int total = 1; for (int i = 0; i < 2 * n; ++i) total *= 3;\n'
+               '  for (int c = 0; c < total && bad < 5; ++c) {\n    double va[4], vb[4]; int r = c; for (int i = 0; i < n; ++i) { va[i] = vals[r %% 3]; r /= 3; } for (int i = 0; i < n; ++i) { vb[i] = vals[r %% 3]; r /= 3; }\n'
+               '    M a, b; set(a, va); set(b, vb);\n    bool lt = false, eq = true; for (int i = 0; i < n; ++i) { if (va[i] != vb[i]) { eq = false; lt = va[i] < vb[i]; break; } }\n'
+               '    const bool gt = !eq && !lt;\n%s  }\n  return bad ? 1 : 0;\n}\n')
+        sets = ''.join('  m.%s = PhQ::%s<%s>(static_cast<%s>(v[%d]));\n' % (fn, ftn, T, T, i) for i, (fn, ftn) in enumerate(zip(fields, ftypes)))
+        if op == 'hash':
+            chk = ('    if (eq && std::hash<M>()(a) != std::hash<M>()(b)) { std::printf("MISMATCH equal models hash differently (members %g %g)\\n", va[0], va[n - 1]); bad++; }\n')
+        else:
+            want = {'==': 'eq', '!=': '!eq', '<': 'lt', '>': 'gt', '<=': '(lt || eq)', '>=': '(gt || eq)'}[op]
+            chk = ('    if ((a %s b) != %s) { std::printf("MISMATCH (a %s b) = %%d for a = (%%g, %%g), b = (%%g, %%g); lexicographic comparison of the stored members gives %%d\\n", (int)(a %s b), va[0], va[n - 1], vb[0], vb[n - 1], (int)%s); bad++; }\n'
+                   % (op, want, op, op, want))
+        cpp = cpp % (cls, cls, T, sets, n, chk)
+        r, err = replay.build_and_run(cpp, os.path.join(check.work, 'replay'), 'r_' + re.sub(r'\W+', '_', ob.name))
+        if err:
+            rec['replay_error'] = err[:800]
+        else:
+            rec['cpp'], rec['native_output'] = cpp, r.stdout[:1000]
+            if 'MISMATCH' in r.stdout:
+                confirmed, rec['mismatch'] = True, r.stdout.strip().split('\n')[:5]
+                rec['inputs'] = {'see': 'mismatch lines'}
     except Exception as e:
         rec['replay_error'] = '%s: %s' % (type(e).__name__, e)
     rec['confirmed'] = confirmed
